@@ -88,6 +88,13 @@ def gen_cases(seed, tier):
         seq(svc, ["dial_blackhole", "ok_cl"])
     for svc in rnd.sample(range(8), 1 if tier == "quick" else 4):
         seq(svc, ["write_stall", "ok_cl"])
+    # clients that are gone when their error page is written (paused service, connection reset while waiting, target refusing
+    # after the resume): nothing of the page that could not be delivered may reach a later client of any service
+    for svc in range(8):
+        for k in rnd.sample(BEFORE, 2 if tier == "quick" else 6):
+            seq(svc, [k, rnd.choice(BEFORE), "ok_cl"])
+            cases[-1]["steps"][0]["gone_before"] = rnd.choice([2, 4, 8])
+            cases[-1]["steps"][1]["gone_before"] = rnd.choice([0, 3])
     # sequences of k faults then a good request
     n_seq = 16 if tier == "quick" else 330
     pool = BEFORE * 3 + AFTER * 2 + GOOD + ["silence", "stall_long"]
